@@ -51,10 +51,10 @@ def _run(c, sig, center):
     if center == 'trough' and c.get('pres') not in (None, 'array'):      # the trough-centred run receives the samples in another container / layout
         sig = implutil.present(sig, c['pres'])
     if center == 'peak' and c.get('reuse'):                              # the peak-centred run analyses a buffer refilled in place
-        return implutil.reuse_buffer(lambda a: implutil.quiet(compute_features, a, c['fs'], tuple(c['f_range']), center_extrema=center, burst_method=c['method'], burst_kwargs=bk,
+        return implutil.reuse_buffer(lambda a: implutil.quiet(compute_features, a, c['fs'], implutil.frange(c), center_extrema=center, burst_method=c['method'], burst_kwargs=bk,
                                                              threshold_kwargs=th, find_extrema_kwargs=fek, return_samples=c.get('rs', True)), sig)
     run = implutil.strict_env if c.get('strict') else implutil.quiet      # both runs of some cases inside np.seterr(all='raise')
-    return implutil.twice(lambda: run(compute_features, sig, c['fs'], tuple(c['f_range']), center_extrema=center, burst_method=c['method'], burst_kwargs=bk,
+    return implutil.twice(lambda: run(compute_features, sig, c['fs'], implutil.frange(c), center_extrema=center, burst_method=c['method'], burst_kwargs=bk,
                                                  threshold_kwargs=th, find_extrema_kwargs=fek, return_samples=c.get('rs', True)), [sig, bk, th, fek], 'compute_features')
 
 def _shape_rows(df):
@@ -133,7 +133,7 @@ def evaluate(ctx, cases):
                 xs = implutil.present(proto.hex2arr(c['sig']), c['pres'])
                 before = np.array(xs, dtype=float).copy()
                 try:
-                    ts = implutil.quiet(compute_shape_features, xs, c['fs'], tuple(c['f_range']), center_extrema='trough', find_extrema_kwargs=implutil.fe_kwargs(c['fk'], c['boundary'], None))
+                    ts = implutil.quiet(compute_shape_features, xs, c['fs'], implutil.frange(c), center_extrema='trough', find_extrema_kwargs=implutil.fe_kwargs(c['fk'], c['boundary'], None))
                     if not np.array_equal(np.array(xs, dtype=float), before):
                         fail('compute_shape_features(center_extrema=\'trough\') modified the caller\'s samples (%s)' % c['pres'])
                     elif any(not ((ts[col].values == t[col].values) | (np.isnan(ts[col].values.astype(float)) & np.isnan(t[col].values.astype(float)))).all() for col in SHAPE):
